@@ -216,11 +216,12 @@ def proof_obligations(prop_modules, tier, workdir):
         m, _, pf = spec.partition(":")
         if m not in mods:
             mods.append(m)
-        if pf:
-            filters.setdefault(m, []).extend(pf.split(","))
-        else:
-            filters[m] = None if filters.get(m) is None or m not in filters else filters[m]
-            filters[m] = None
+        if not pf:
+            filters[m] = None                      # unfiltered once = all theorems of the module
+        elif m not in filters:
+            filters[m] = pf.split(",")
+        elif filters[m] is not None:
+            filters[m].extend(pf.split(","))
     prop_modules = mods
 
     def names_of(m):
